@@ -146,6 +146,27 @@ func (e *Engine) resolveKey(k string) string {
 		return k
 	}
 	var cands []string
+	norm := func(x string) string {
+		// "(*a/b/c.T).M" -> "(*c.T).M"; "a/b/c.F" -> "c.F"
+		pre := ""
+		for strings.HasPrefix(x, "(") || strings.HasPrefix(x, "*") {
+			pre += x[:1]
+			x = x[1:]
+		}
+		if i := strings.LastIndex(x, "/"); i >= 0 {
+			x = x[i+1:]
+		}
+		return pre + x
+	}
+	for fk := range e.funcs {
+		if norm(fk) == k {
+			cands = append(cands, fk)
+		}
+	}
+	if len(cands) > 0 {
+		sort.Strings(cands)
+		return cands[0]
+	}
 	for fk := range e.funcs {
 		if strings.HasSuffix(fk, k) || strings.HasSuffix(displayName(fk), k) {
 			cands = append(cands, fk)
